@@ -394,3 +394,320 @@ Proof.
   - split; [intros [= <-]; right; right; split; [lia | reflexivity]|].
     intros [(? & ? & _)|[(? & ? & _)|[_ ->]]]; try discriminate. reflexivity.
 Qed.
+
+(* ================================================================================================
+   C. __getitem__ *)
+Section Getitem.
+  Context {R : Type}.
+  Implicit Types (X Y : smv R) (st : store R) (c : coef R).
+
+  (* a 2-D ndarray is rectangular *)
+  Definition wf_store st : Prop :=
+    match st with Nd2 n rows => Forall (fun r => length r = n) rows | _ => True end.
+
+  (* values[key][idx] for one coefficient, spelled out: a python number cannot be subscripted, a numpy scalar
+     only by the empty tuple, an array gives the entry at the addressed position / the entries at the
+     addressed positions, in the order of the subscript *)
+  Lemma get_coef_spec ix c c' :
+    get_coef ix c = Ok c' <->
+    match c with
+    | CNum _ => False
+    | CNp x => ix = [] /\ c' = CNp x
+    | CArr a => exists ad, addr_of (length a) ix = Ok ad /\
+                match ad with
+                | AOne p => exists x, nth_error a p = Some x /\ c' = CNp x
+                | AMany ps => c' = CArr (pick ps a)
+                end
+    end.
+  Proof.
+    destruct c as [x|x|a]; cbn.
+    - split; [discriminate | contradiction].
+    - destruct ix; split; try discriminate.
+      + intros [= <-]. auto.
+      + intros [_ ->]. reflexivity.
+      + intros [? _]. discriminate.
+    - unfold get_arr. destruct (addr_of (length a) ix) as [[p|ps]|e]; cbn.
+      + destruct (nth_error a p) as [x|] eqn:E; cbn; split.
+        * intros [= <-]. exists (AOne p). split; [reflexivity | eauto].
+        * intros (ad & Had & H). injection Had as <-. destruct H as (x' & Hx & ->). congruence.
+        * discriminate.
+        * intros (ad & Had & H). injection Had as <-. destruct H as (x' & Hx & _). congruence.
+      + split; [intros [= <-]; exists (AMany ps); split; reflexivity | intros (ad & [= <-] & ->); reflexivity].
+      + split; [discriminate | intros (ad & H & _); discriminate].
+  Qed.
+
+  Lemma get_coef_CArr_len ix a c' : get_coef ix (CArr a) = Ok c' ->
+    match c' with CArr b => exists ps, addr_of (length a) ix = Ok (AMany ps) /\ b = pick ps a /\ length b = length ps
+             | CNp _ => True | CNum _ => False end.
+  Proof.
+    intro H. apply get_coef_spec in H. destruct H as ([p|ps] & Had & H).
+    - destruct H as (x & _ & ->). exact I.
+    - subst c'. exists ps. repeat split; auto. apply pick_length. apply addr_of_wf in Had. apply Had.
+  Qed.
+
+  Lemma col_ok n rows p : Forall (fun r : list R => length r = n) rows -> p < n ->
+    exists col, mapM (fun r => of_opt EIndex (nth_error r p)) rows = Ok col /\
+                Forall2 (fun r x => nth_error r p = Some x) rows col.
+  Proof.
+    intros Hwf Hp. induction Hwf as [|r rows Hr _ (col & IH1 & IH2)].
+    - exists []. split; [reflexivity | constructor].
+    - destruct (in_range_nth r p) as [x Hx]; [lia|]. exists (x :: col). cbn. rewrite Hx. cbn. rewrite IH1. cbn.
+      split; [reflexivity | constructor; assumption].
+  Qed.
+
+  (* X[idx]: the keys of X in the same order, and for every key exactly values[key][idx] -- the ndarray path
+     values[(slice(None), *idx)] agrees entry for entry with the list path (value[idx] for value in values) *)
+  Theorem getitem_exact X item Y :
+    wf_store (s_vals X) -> mv_getitem X item = Ok Y ->
+    s_keys Y = s_keys X /\
+    Forall2 (fun v v' => get_coef (norm_item item) v = Ok v') (entries (s_vals X)) (entries (s_vals Y)) /\
+    wf_store (s_vals Y).
+  Proof.
+    intros Hwf H. unfold mv_getitem in H. remember (norm_item item) as ix eqn:Eix. clear Eix.
+    destruct (s_vals X) as [l|v|n rows]; cbn in H.
+    - destruct (mapM (get_coef ix) l) as [l'|e] eqn:E; cbn in H; [|discriminate]. injection H as <-. cbn.
+      repeat split; auto. apply mapM_Ok. exact E.
+    - destruct ix; cbn in H; [|discriminate]. injection H as <-. cbn. repeat split; auto.
+      induction v; cbn; constructor; auto.
+    - destruct (addr_of n ix) as [[p|ps]|e] eqn:Ead; cbn in H; [| |discriminate].
+      + pose proof (addr_of_wf _ _ _ Ead) as Hp. cbn in Hp.
+        destruct (col_ok n rows p Hwf Hp) as (col & Hc1 & Hc2). rewrite Hc1 in H. cbn in H. injection H as <-. cbn.
+        repeat split; auto. cbn in Hwf.
+        clear Hc1. induction Hc2 as [|r x rows col Hrx _ IH]; cbn; constructor.
+        * inversion Hwf; subst. apply get_coef_spec. exists (AOne p). split; [assumption | eauto].
+        * inversion Hwf; subst. apply IH; assumption.
+      + injection H as <-. cbn. pose proof (addr_of_wf _ _ _ Ead) as [Hin Hnd]. cbn in Hwf.
+        repeat split; auto.
+        * induction Hwf as [|r rows Hr _ IH]; cbn; constructor; auto.
+          apply get_coef_spec. exists (AMany ps). rewrite Hr. auto.
+        * apply Forall_forall. intros b Hb. apply in_map_iff in Hb. destruct Hb as (r & <- & Hr).
+          apply pick_length. rewrite Forall_forall in Hwf. rewrite (Hwf r Hr). assumption.
+  Qed.
+
+  (* ... and when it raises: the exception of the FIRST coefficient (in key order) whose subscript fails for list
+     storage; the subscript error of the trailing axis for ndarray storage, whatever the number of keys *)
+  Theorem getitem_raises X item e :
+    wf_store (s_vals X) ->
+    (mv_getitem X item = Err e <->
+     match s_vals X with
+     | LBack l => exists pre c post cs, l = pre ++ c :: post /\
+                    Forall2 (fun v v' => get_coef (norm_item item) v = Ok v') pre cs /\
+                    get_coef (norm_item item) c = Err e
+     | Nd1 _ => norm_item item <> [] /\ e = EIndex
+     | Nd2 n _ => addr_of n (norm_item item) = Err e
+     end).
+  Proof.
+    intros Hwf. unfold mv_getitem. remember (norm_item item) as ix eqn:Eix. clear Eix.
+    destruct (s_vals X) as [l|v|n rows] eqn:EX; cbn.
+    - destruct (mapM (get_coef ix) l) as [l'|e0] eqn:E; cbn.
+      + split; [discriminate|]. intro H. apply (proj2 (mapM_Err _ _ _)) in H. congruence.
+      + rewrite <- (mapM_Err (get_coef ix) l e). rewrite E. split; congruence.
+    - destruct ix; cbn; split; try discriminate.
+      + intros [H _]. contradiction.
+      + intros [= <-]. split; [discriminate | reflexivity].
+      + intros [_ ->]. reflexivity.
+    - destruct (addr_of n ix) as [[p|ps]|e0] eqn:Ead; cbn.
+      + pose proof (addr_of_wf _ _ _ Ead) as Hp. cbn in Hp.
+        destruct (col_ok n rows p Hwf Hp) as (col & Hc1 & _). rewrite Hc1. cbn. split; discriminate.
+      + split; discriminate.
+      + split; congruence.
+  Qed.
+
+  (* an out-of-range integer raises IndexError, exactly *)
+  Corollary getitem_int_nd2 keys n (rows : list (list R)) i :
+    Forall (fun r => length r = n) rows ->
+    (mv_getitem (mkSmv keys (Nd2 n rows)) (PyOne (IInt i)) = Err EIndex
+     <-> (i < - Z.of_nat n \/ Z.of_nat n <= i)%Z) /\
+    (forall e, mv_getitem (mkSmv keys (Nd2 n rows)) (PyOne (IInt i)) = Err e -> e = EIndex).
+  Proof.
+    intro Hwf.
+    assert (Hr : forall e, mv_getitem (mkSmv keys (Nd2 n rows)) (PyOne (IInt i)) = Err e <-> addr_of n [IInt i] = Err e)
+      by (intro e; apply (getitem_raises (mkSmv keys (Nd2 n rows)) (PyOne (IInt i)) e Hwf)).
+    split.
+    - rewrite Hr, addr_of_Err. split.
+      + intros [(i' & [= <-] & _ & H)|[(s & ? & _)|[H _]]]; try discriminate; [exact H | cbn in H; lia].
+      + intro H. left. eauto.
+    - intros e H. apply Hr in H. apply addr_of_Err in H.
+      destruct H as [(i' & _ & -> & _)|[(s & ? & _)|[H _]]]; try discriminate; [reflexivity | cbn in H; lia].
+  Qed.
+
+  Corollary getitem_int_list keys (arrs : list (list R)) n i :
+    arrs <> [] -> Forall (fun a => length a = n) arrs ->
+    (mv_getitem (mkSmv keys (LBack (map CArr arrs))) (PyOne (IInt i)) = Err EIndex
+     <-> (i < - Z.of_nat n \/ Z.of_nat n <= i)%Z).
+  Proof.
+    intros Hne Hlen. rewrite (getitem_raises (mkSmv keys (LBack (map CArr arrs)))) by exact I. cbn. split.
+    - intros (pre & c & post & cs & Hl & _ & Hc).
+      assert (In c (map CArr arrs)) as Hin by (rewrite Hl; apply in_or_app; right; left; reflexivity).
+      apply in_map_iff in Hin. destruct Hin as (a & <- & Ha). rewrite Forall_forall in Hlen. specialize (Hlen a Ha).
+      cbn in Hc. unfold get_arr in Hc. rewrite Hlen in Hc. cbn in Hc.
+      destruct (norm_int n i) as [p|e0] eqn:E; cbn in Hc.
+      + pose proof (norm_int_lt _ _ _ E). destruct (in_range_nth a p) as [x Hx]; [lia|]. rewrite Hx in Hc. discriminate.
+      + apply norm_int_Err in E. apply E.
+    - intro H. destruct arrs as [|a arrs]; [contradiction|]. inversion Hlen; subst.
+      exists [], (CArr a), (map CArr arrs), []. repeat split; [constructor|].
+      cbn. unfold get_arr. cbn. assert (norm_int (length a) i = Err EIndex) as -> by (apply norm_int_Err; auto). reflexivity.
+  Qed.
+
+  (* a slice with a non-zero step never raises on array coefficients *)
+  Corollary getitem_slice_total keys (st : store R) s :
+    wf_store st -> (exists arrs, st = LBack (map CArr arrs)) \/ (exists n rows, st = Nd2 n rows) ->
+    sl_step s <> Some 0%Z -> exists Y, mv_getitem (mkSmv keys st) (PyOne (ISlice s)) = Ok Y.
+  Proof.
+    intros Hwf Hk Hs.
+    destruct (mv_getitem (mkSmv keys st) (PyOne (ISlice s))) as [Y|e] eqn:E; [eauto|exfalso].
+    apply (getitem_raises (mkSmv keys st)) in E; [|exact Hwf]. cbn in E.
+    assert (forall n, addr_of n [ISlice s] = Err e -> False) as Hno.
+    { intros n H. apply addr_of_Err in H. destruct H as [(? & ? & _)|[(s' & [= <-] & _ & H)|[H _]]]; try discriminate; [contradiction | cbn in H; lia]. }
+    destruct Hk as [(arrs & ->)|(n & rows & ->)].
+    - destruct E as (pre & c & post & cs & Hl & _ & Hc).
+      assert (In c (map CArr arrs)) as Hin by (rewrite Hl; apply in_or_app; right; left; reflexivity).
+      apply in_map_iff in Hin. destruct Hin as (a & <- & _). cbn in Hc. unfold get_arr in Hc.
+      destruct (addr_of (length a) [ISlice s]) as [[p|ps]|e0] eqn:Ea; cbn in Hc.
+      + cbn in Ea. destruct (slice_pos (length a) s); discriminate.
+      + discriminate.
+      + injection Hc as ->. eapply Hno; eassumption.
+    - eapply Hno; eassumption.
+  Qed.
+
+  (* X[i] on array coefficients IS evaluation at the (normalised) index: the map at_i of the naturality theorem
+     (Theory/Natural.v, C16_index_commutes), an array a being the function p |-> nth p a d *)
+  Lemma getitem_int_is_evaluation keys (arrs : list (list R)) n i p (d : R) :
+    Forall (fun a => length a = n) arrs -> norm_int n i = Ok p ->
+    mv_getitem (mkSmv keys (LBack (map CArr arrs))) (PyOne (IInt i))
+    = Ok (mkSmv keys (LBack (map (fun a => CNp (nth p a d)) arrs))).
+  Proof.
+    intros Hlen Hp. unfold mv_getitem. cbn.
+    assert (mapM (get_coef [IInt i]) (map CArr arrs) = Ok (map (fun a => CNp (nth p a d)) arrs)) as ->; [|reflexivity].
+    apply mapM_Ok. induction Hlen as [|a arrs Ha _ IH]; cbn; constructor; auto.
+    unfold get_coef, get_arr, addr_of. rewrite Ha, Hp. cbn. pose proof (norm_int_lt _ _ _ Hp).
+    destruct (in_range_nth a p) as [x Hx]; [lia|]. rewrite Hx. cbn. rewrite (nth_error_nth _ _ d Hx). reflexivity.
+  Qed.
+End Getitem.
+
+(* ================================================================================================
+   D. __setitem__ *)
+Lemma list_eqb_Z_eq (a b : list Z) : list_eqb Z.eqb a b = true <-> a = b.
+Proof.
+  revert b. induction a as [|x a IH]; intros [|y b]; cbn; split; try discriminate; auto.
+  - intro H. apply andb_true_iff in H. destruct H as [H1 H2]. apply Z.eqb_eq in H1. apply IH in H2. congruence.
+  - intros [= -> ->]. rewrite Z.eqb_refl. apply IH. reflexivity.
+Qed.
+
+Section Setitem.
+  Context {R : Type}.
+  Implicit Types (X Y : smv R) (st : store R) (c s o : coef R) (a : list R).
+
+  (* position q of an axis of length n is addressed by the subscript tuple ix *)
+  Definition addressed (n : nat) (ix : list idx1) (q : nat) : Prop :=
+    exists ad, addr_of n ix = Ok ad /\ match ad with AOne p => q = p | AMany ps => In q ps end.
+
+  Definition is_scalar o (x : R) : Prop := o = CNum x \/ o = CNp x.
+
+  (* what numpy makes of the assigned value on p addressed positions *)
+  Lemma bc_coef_spec p o vs :
+    bc_coef p o = Ok vs <->
+    (exists x, is_scalar o x /\ vs = repeat x p) \/
+    (exists l, o = CArr l /\ length l = p /\ vs = l) \/
+    (exists x, o = CArr [x] /\ vs = repeat x p).
+  Proof.
+    destruct o as [x|x|l]; cbn.
+    - split.
+      + intros [= <-]. left. exists x. split; [left|]; reflexivity.
+      + intros [(y & [[= <-]|H] & ->)|[(l & H & _)|(y & H & _)]]; try discriminate. reflexivity.
+    - split.
+      + intros [= <-]. left. exists x. split; [right|]; reflexivity.
+      + intros [(y & [H|[= <-]] & ->)|[(l & H & _)|(y & H & _)]]; try discriminate. reflexivity.
+    - unfold bc_row. destruct (Nat.eqb_spec (length l) p) as [E|E].
+      + split.
+        * intros [= <-]. right; left. eauto.
+        * intros [(y & [H|H] & _)|[(l' & [= <-] & _ & ->)|(y & [= ->] & ->)]]; try discriminate; try reflexivity.
+          cbn in E. subst p. reflexivity.
+      + destruct l as [|x [|y l]]; split; try discriminate.
+        * intros [(y & [H|H] & _)|[(l' & [= <-] & H & _)|(y & H & _)]]; try discriminate. contradiction.
+        * intros [= <-]. right; right. eauto.
+        * intros [(y & [H|H] & _)|[(l' & [= <-] & H & _)|(y & [= ->] & ->)]]; try discriminate; [contradiction | reflexivity].
+        * intros [(z & [H|H] & _)|[(l' & [= <-] & H & _)|(z & H & _)]]; try discriminate. contradiction.
+  Qed.
+
+  Lemma bc_coef_length p o vs : bc_coef p o = Ok vs -> length vs = p.
+  Proof.
+    intro H. apply bc_coef_spec in H.
+    destruct H as [(x & _ & ->)|[(l & _ & H & ->)|(x & _ & ->)]]; auto using repeat_length.
+  Qed.
+
+  (* a[ix] = o, spelled out *)
+  Lemma assign_arr_spec ix a o a' :
+    assign_arr ix a o = Ok a' <->
+    exists ad, addr_of (length a) ix = Ok ad /\
+      match ad with
+      | AOne p => exists x, is_scalar o x /\ a' = set_nth p x a
+      | AMany ps => exists vs, bc_coef (length ps) o = Ok vs /\ a' = write_pos ps vs a
+      end.
+  Proof.
+    unfold assign_arr. destruct (addr_of (length a) ix) as [[p|ps]|e]; cbn.
+    - destruct o as [x|x|l]; split; try discriminate.
+      + intros [= <-]. exists (AOne p). split; [reflexivity|]. exists x. split; [left|]; reflexivity.
+      + intros (ad & [= <-] & y & [[= <-]|H] & ->); [reflexivity | discriminate].
+      + intros [= <-]. exists (AOne p). split; [reflexivity|]. exists x. split; [right|]; reflexivity.
+      + intros (ad & [= <-] & y & [H|[= <-]] & ->); [discriminate | reflexivity].
+      + intros (ad & [= <-] & y & [H|H] & _); discriminate.
+    - destruct (bc_coef (length ps) o) as [vs|e] eqn:E; cbn; split; try discriminate.
+      + intros [= <-]. exists (AMany ps). split; [reflexivity|]. eauto.
+      + intros (ad & Had & H). injection Had as <-. destruct H as (vs' & Hv & ->). congruence.
+      + intros (ad & Had & H). injection Had as <-. destruct H as (vs' & Hv & _). congruence.
+    - split; [discriminate|]. intros (ad & H & _). discriminate.
+  Qed.
+
+  Lemma assign_arr_length ix a o a' : assign_arr ix a o = Ok a' -> length a' = length a.
+  Proof.
+    intro H. apply assign_arr_spec in H. destruct H as ([p|ps] & _ & H).
+    - destruct H as (x & _ & ->). apply set_nth_length.
+    - destruct H as (vs & _ & ->). apply write_pos_length.
+  Qed.
+
+  (* frame for one array: an entry that is not addressed keeps its value *)
+  Lemma assign_arr_frame ix a o a' q :
+    assign_arr ix a o = Ok a' -> ~ addressed (length a) ix q -> nth_error a' q = nth_error a q.
+  Proof.
+    intros H Hq. apply assign_arr_spec in H. destruct H as ([p|ps] & Had & H).
+    - destruct H as (x & _ & ->). rewrite nth_error_set_nth.
+      destruct (Nat.eqb_spec q p) as [->|]; [|reflexivity]. exfalso. apply Hq. exists (AOne p). auto.
+    - destruct H as (vs & _ & ->). apply write_pos_frame. intro Hin. apply Hq. exists (AMany ps). auto.
+  Qed.
+
+  (* the successor s' of an entry s under an assignment through ix, whatever was assigned and whether or not it
+     raised: a number is untouched, an array keeps its length and every entry that is not addressed *)
+  Definition frame_coef (ix : list idx1) s s' : Prop :=
+    match s with
+    | CArr a => exists a', s' = CArr a' /\ length a' = length a /\
+                           forall q, ~ addressed (length a) ix q -> nth_error a' q = nth_error a q
+    | _ => s' = s
+    end.
+
+  Lemma frame_coef_refl ix s : frame_coef ix s s.
+  Proof. destruct s; cbn; eauto. Qed.
+
+  Lemma assign_coef_frame ix s o s' : assign_coef ix s o = Ok s' -> frame_coef ix s s'.
+  Proof.
+    destruct s as [x|x|a]; cbn; try discriminate.
+    destruct (assign_arr ix a o) as [a'|e] eqn:E; cbn; [|discriminate]. intros [= <-].
+    exists a'. split; [reflexivity|]. split; [eapply assign_arr_length; eassumption|].
+    intros q Hq. eapply assign_arr_frame; eassumption.
+  Qed.
+
+  Lemma Forall2_refl_frame ix (l : list (coef R)) : Forall2 (frame_coef ix) l l.
+  Proof. induction l; constructor; auto using frame_coef_refl. Qed.
+
+  Lemma set_loop_frame ix l os l' e : set_loop ix l os = (l', e) -> Forall2 (frame_coef ix) l l'.
+  Proof.
+    revert os l' e. induction l as [|s l IH]; intros os l' e H.
+    - cbn in H. injection H as <- <-. constructor.
+    - destruct os as [|o os]; cbn in H.
+      + injection H as <- <-. apply Forall2_refl_frame.
+      + destruct (assign_coef ix s o) as [s'|e0] eqn:E.
+        * destruct (set_loop ix l os) as [r e1] eqn:E'. injection H as <- <-.
+          constructor; [eapply assign_coef_frame; eassumption | eapply IH; eassumption].
+        * injection H as <- <-. apply Forall2_refl_frame.
+  Qed.
+End Setitem.
